@@ -19,6 +19,7 @@ import (
 	"verif/internal/dnsref"
 	"verif/internal/enum"
 	"verif/internal/ev"
+	"verif/internal/tlsref"
 )
 
 // ---- conversions to the reference's canonical form ----
@@ -294,6 +295,42 @@ func checkPkgMessage(r *ev.Run, m dns.Message, tag string, useXnet bool) {
 	r.Eval(string(wire), "encode-ok")
 }
 
+// appendToEveryByteSlice walks a decoded value and appends to every []byte (net.IP, option data, parameter values,
+// digests, ...) it can reach, writing no element any holder can see; it returns how many slices it found.
+func appendToEveryByteSlice(v reflect.Value) int {
+	switch v.Kind() {
+	case reflect.Pointer, reflect.Interface:
+		if v.IsNil() {
+			return 0
+		}
+		return appendToEveryByteSlice(v.Elem())
+	case reflect.Struct:
+		n := 0
+		for i := 0; i < v.NumField(); i++ {
+			n += appendToEveryByteSlice(v.Field(i))
+		}
+		return n
+	case reflect.Slice:
+		if v.Type().Elem().Kind() == reflect.Uint8 {
+			if v.Len() == 0 && v.IsNil() {
+				return 0
+			}
+			b := v.Bytes()
+			// (an append that fits into the spare capacity is the one that writes in place: fill the capacity exactly, and
+			// append one more octet than fits as well)
+			_ = append(b, bytes.Repeat([]byte{0xa5}, cap(b)-len(b))...)
+			_ = append(b, bytes.Repeat([]byte{0xa5}, cap(b)-len(b)+1)...)
+			return 1
+		}
+		n := 0
+		for i := 0; i < v.Len(); i++ {
+			n += appendToEveryByteSlice(v.Index(i))
+		}
+		return n
+	}
+	return 0
+}
+
 // namesOf lists every name string of a decoded message (question and owner names).
 func namesOf(m *dns.Message) string {
 	var b strings.Builder
@@ -353,6 +390,15 @@ func checkRefMessage(r *ev.Run, m *dnsref.Msg, tag string) {
 			// what was decoded stays what it was: (1) names are strings - they do not change when the caller reuses the buffer the
 			// message was decoded from; (2) a caller that APPENDS a record to one section (writing no element it can see) does not
 			// change another section
+			// (0) every octet string of the decoded message ends where its data ends: appending to each of them changes nothing
+			appended := appendToEveryByteSlice(reflect.ValueOf(got))
+			if g2, err := fromPkg(got); err != nil || g2.Canon() != m.Canon() {
+				c2 := ""
+				if err == nil {
+					c2 = g2.Canon()
+				}
+				r.Violation("decoded-octet-strings-share-memory:"+tag, fmt.Sprintf("after octets were appended to each of the %d octet strings of the decoded message (as many as its capacity holds; no element was written), the message reads\n %s (%v)\nbefore\n %s", appended, c2, err, m.Canon()), replay)
+			}
 			names1 := namesOf(got)
 			evalKey := string(wire)
 			for i := range wire {
@@ -963,6 +1009,49 @@ func Run(r *ev.Run) {
 		}
 		r.Set("pointer_sweep_points", agree)
 		r.Set("pointer_sweep_valid_messages", accepted)
+	}
+
+	// ---- B9 record types whose RDATA ends in an octet string (CERT, DS, RRSIG, NSEC, DNSKEY, an unknown type, OPT options, SVCB
+	// parameter values), each FOLLOWED by an A record: appending to every octet string of the decoded message leaves the message
+	// as it was (a view with the rest of the message as capacity would let the append rewrite the A record) ----
+	{
+		name := []byte{1, 'x', 7, 'e', 'x', 'a', 'm', 'p', 'l', 'e', 0}
+		rdatas := map[uint16][]byte{
+			37: append([]byte{0, 1, 0, 2, 8}, tlsref.DetBytes("cert", 20)...),
+			43: append([]byte{0x12, 0x34, 8, 2}, tlsref.DetBytes("digest", 32)...),
+			46: append(append([]byte{0, 1, 8, 2, 0, 0, 0, 60, 0, 0, 0, 2, 0, 0, 0, 1, 0x12, 0x34}, name...), tlsref.DetBytes("sig", 24)...),
+			47: append(slices.Clone(name), 0, 1, 0x40),
+			48: append([]byte{1, 1, 3, 8}, tlsref.DetBytes("key", 24)...),
+			99: tlsref.DetBytes("opaque", 17),
+			41: {0, 10, 0, 8, 1, 2, 3, 4, 5, 6, 7, 8, 0, 12, 0, 3, 0, 0, 0},
+			64: append(append([]byte{0, 1}, name...), 0, 1, 0, 3, 2, 'h', '2', 0, 3, 0, 2, 1, 0xbb, 0xff, 0x00, 0, 4, 9, 9, 9, 9),
+		}
+		for _, typ := range []uint16{37, 43, 46, 47, 48, 99, 41, 64} {
+			rd := rdatas[typ]
+			wire := []byte{0, 9, 0x81, 0x80, 0, 1, 0, 2, 0, 0, 0, 0}
+			wire = append(append(wire, name...), 0, 255, 0, 1)
+			owner := []byte{0xc0, 12}
+			if typ == 41 {
+				owner = []byte{0}
+			}
+			wire = append(append(wire, owner...), byte(typ>>8), byte(typ), 0, 1, 0, 0, 0, 60, byte(len(rd)>>8), byte(len(rd)))
+			wire = append(wire, rd...)
+			wire = append(wire, 0xc0, 12, 0, 1, 0, 1, 0, 0, 0, 60, 0, 4, 192, 0, 2, 1)
+			dec, err := dns.DecodeMessage(slices.Clone(wire))
+			oc := "octet strings end where their data ends"
+			if err != nil {
+				oc = "not decoded"
+				r.Violation("decode-rejects-valid:octet-string-types", fmt.Sprintf("type %d: %v", typ, err), fmt.Sprintf("%x", wire))
+			} else {
+				before := fmt.Sprintf("%v", *dec)
+				n := appendToEveryByteSlice(reflect.ValueOf(dec))
+				if after := fmt.Sprintf("%v", *dec); after != before || n == 0 {
+					oc = "append reaches another field"
+					r.Violation("decoded-octet-strings-share-memory:type", fmt.Sprintf("a record of type %d followed by an A record: after octets were appended to each of the %d octet strings of the decoded message (as many as its capacity holds) it reads\n %s\nbefore\n %s", typ, n, after, before), fmt.Sprintf("%x", wire))
+				}
+			}
+			r.Eval(fmt.Sprint("octet-string-type:", typ), oc)
+		}
 	}
 
 	// ---- B5' the header bits this package has no field for - AD and CD (RFC 4035), set by validating resolvers and by stub
